@@ -436,15 +436,16 @@ def _param(case, rec, rng):
     from jaxley.optimize.transforms import ParamTransform
     from jxmon.core import Refused
 
-    tfs, params, ref_f = [], [], []
+    tfs, params, ref_f, names = [], [], [], []
     for j, sp in enumerate(case["leaves"]):
         t = build(sp)
         shape = (NX,) if sp["t"] == "masked" or any(q["t"] == "masked" for q in sp.get("parts", [])) else (int(rng.integers(1, 7)),)
         if sp["t"] == "chain" and any(p["t"] == "masked" for p in sp["parts"]):
             shape = (NX,)
         x = jnp.asarray(rng.uniform(-6, 6, shape))
-        tfs.append({f"p{j}": t})
-        params.append({f"p{j}": x})
+        names.append(["radius", "HH_gNa"][j % 2])  # the same key in several entries, as repeated make_trainable("radius") calls give
+        tfs.append({names[-1]: t})
+        params.append({names[-1]: x})
         ref_f.append(np.asarray(t.forward(x)))
     pt = ParamTransform(tfs)
     try:
@@ -458,7 +459,7 @@ def _param(case, rec, rng):
     if not ok_struct:
         return
     for j, sp in enumerate(case["leaves"]):
-        key = f"p{j}"
+        key = names[j]
         rec.check("leafwise", np.array_equal(np.asarray(f[j][key]), ref_f[j], equal_nan=True), leaf=j, spec=sp,
                   what="leaf differs from its own transform applied alone")
         ref_b = np.asarray(tfs[j][key].inverse(jnp.asarray(ref_f[j])))
